@@ -296,6 +296,9 @@ def case_root(ctx, rng, name, layout, repeat=None):
     if ZERO_MEAN is not None:
         for k_ in ZERO_MEAN:
             d[k_] = d[k_] - d[k_].value
+    if FIRST_TINY[0] is not None:
+        d[0] = d[0] * (FIRST_TINY[0] / d[0].value)          # central value and fluctuations of the first entry scaled to 1e-6 .. 1e-13
+        ctx.cell('find_root_first_entry', name, int(round(math.log10(abs(FIRST_TINY[0])))))
         ctx.cell('find_root_zero_mean', name)
     if repeat is not None:
         # the same observable occupies two slots of d: the total derivative is the sum of the slot derivatives
@@ -357,6 +360,12 @@ def case_root(ctx, rng, name, layout, repeat=None):
         ctx.ev()
         ctx.violation(mech + ':result-type', {'what': what, 'type': type(got).__name__})
         return
+    # the central value is the number the solver returns for the same function, guess and data (a deterministic call): any
+    # rescaling of it in the construction of the observable shows here at the level of rounding, whatever the size of the data
+    import scipy.optimize
+    d_arr = np.vectorize(lambda o_: o_.value)(np.array(arg))
+    solver = float(scipy.optimize.fsolve(func, guess, d_arr)[0])
+    ctx.close(got.value, solver, mech + ':value-differs-from-the-solver-result', what, rtol=4 * np.finfo(float).eps, atol=1e-300)
     # residual at the central values
     scale_x = max(abs(x_exact), 1e-3)
     fx = (res(x_exact * (1 + 1e-6), dv, c) - res(x_exact * (1 - 1e-6), dv, c)) / (2e-6 * x_exact) if x_exact != 0 else 1.0
@@ -379,7 +388,9 @@ def case_root(ctx, rng, name, layout, repeat=None):
         direct = explicit_inverse(name, c, d_core)
     except Exception:
         direct = None
-    if direct is not None and is_obs(direct) and not split_safe(snaps):
+    if direct is not None and (FIRST_TINY[0] is not None or ZERO_MEAN is not None) and name in ('cubic', 'vec_cubic'):
+        ctx.count('explicit_inverse_not_compared_cancellation_in_cardano')      # (d/2 + s)^(1/3) - (s - d/2)^(1/3) cancels for tiny coefficients
+    elif direct is not None and is_obs(direct) and not split_safe(snaps):
         ctx.count('explicit_inverse_not_compared_split_dependent_layout')
     elif direct is not None and is_obs(direct):
         dref = as_ref(direct)
@@ -764,6 +775,23 @@ def case_root_zero(ctx, rng, name):
 
 
 ZERO_MEAN = None
+FIRST_TINY = [None]
+
+
+def case_root_first_entry(ctx, rng, name, how):
+    """the FIRST entry of d (the one the library's value function divides by) of tiny absolute size or exactly 0.0 while the root and the
+    other entries are O(1) / well defined"""
+    global ZERO_MEAN
+    try:
+        if how == 'zero':
+            ZERO_MEAN = [0]
+        else:
+            FIRST_TINY[0] = float(rng.choice([-1, 1]) if name in ('tanh', 'cubic') else 1) * float(10.0 ** rng.integers(-13, -5)) * float(rng.uniform(1, 9))
+        ctx.count('first_entry_cases')
+        case_root(ctx, rng, name, str(rng.choice(LAYOUTS)))
+    finally:
+        ZERO_MEAN = None
+        FIRST_TINY[0] = None
 
 
 def case_root_plain_numpy(ctx, rng, where):
@@ -996,6 +1024,9 @@ def plan(tier):
         p.append(('rootzero:%s' % name, 8 * m))
     for where in ('d', 'x'):
         p.append(('rootnumpy:%s' % where, 26 * m))
+    for name in ('vec_cubic', 'power', 'tanh', 'cubic'):
+        p.append(('rootfirst:%s:tiny' % name, 14 * m))
+    p.append(('rootfirst:vec_cubic:zero', 14 * m))
     for row in OPTION_ROWS:
         p.append(('quadopt:%s' % row, 24 * m))
     for fam in ri.INTEGRANDS:
@@ -1043,6 +1074,8 @@ def run_case(ctx, kind, idx, rng):
                   str(rng.choice(['same', 'different', 'covariance'])), coincide=co)
     elif k[0] == 'rootzero':
         case_root_zero(ctx, rng, k[1])
+    elif k[0] == 'rootfirst':
+        case_root_first_entry(ctx, rng, k[1], k[2])
     elif k[0] == 'rootnumpy':
         case_root_plain_numpy(ctx, rng, k[1])
     elif k[0] == 'quadmany':
